@@ -46,7 +46,10 @@ macro "den_eval" : tactic => `(tactic| (
   simp only [sub_r_eq, mul_r_eq, add_r_eq, square_r_eq, square_e_eq, fromU64_eq, fromU64_e_eq, toU64_e_eq,
     den_toU64, den_sub, den_mul, den_add] <;> ring))
 
-macro "canon_word" : tactic => `(tactic| first | exact toU64_r_lt _ | exact toU64_e_lt _)
+/-- the word is the result of `toU64` (either overload).  The overload is normalised by rewriting and the lemma applied up to
+    reducible unfolding only: unifying `toU64__rE ?x` with `toU64__eE (sub__eEE …)` by unfolding runs through the asm blocks
+    into the recursion limit (an error `first` cannot catch). -/
+macro "canon_word" : tactic => `(tactic| ((try simp only [toU64_e_eq]); with_reducible exact toU64_r_lt _))
 
 macro "nat_word" : tactic => `(tactic|
   simp only [fromU64_eq, fromU64_e_eq, toU64_e_eq, Model.toU64_r_toNat])
@@ -94,20 +97,41 @@ theorem inv_e_gen_mono (f g : Nat) (hfg : f ≤ g) (a r : BitVec 64) (h : inv___
   · simp only [hz, Bool.false_eq_true, if_false] at h ⊢
     exact Loop.whileM_bind_mono _ _ f g _ r h hfg
 
-/-- generated `Goldilocks::div` (both overloads) = hand model -/
-theorem div_r_gen_eq (fuel : Nat) (hf : invFuel ≤ fuel) (a b : BitVec 64) : div__rEE fuel a b = Model.div a b := by
-  unfold div__rEE Model.div
-  rw [inv_r_gen_eq fuel hf]
+/-- an overload of `div` that forms `mul(in1, inv(in2))` itself, through either overload of `inv` -/
+macro "div_via_inv " f:ident " with " hr:term ", " he:term : tactic => `(tactic| (
+  intro a b
+  unfold $f:ident Model.div
+  simp only [$hr:term, $he:term]
   cases Model.inv b with
   | none => rfl
-  | some i => exact congrArg some (by mul_form)
+  | some i => exact congrArg some (by mul_form)))
 
-theorem div_e_gen_eq (fuel : Nat) (hf : invFuel ≤ fuel) (a b : BitVec 64) : div__eEE fuel a b = Model.div a b := by
-  unfold div__eEE Model.div
-  rw [inv_r_gen_eq fuel hf]
-  cases Model.inv b with
-  | none => rfl
-  | some i => exact congrArg some (by mul_form)
+/-- an overload of `div` that forwards to the other one (`h`: that one is the hand model) -/
+macro "div_wrap " f:ident " with " h:term : tactic => `(tactic| (
+  intro a b
+  unfold $f:ident
+  simp only [$h:term]
+  cases Model.div a b <;> rfl))
+
+/-- generated `Goldilocks::div` (both overloads) = hand model.  Each overload may form the product itself or be a wrapper of the
+    other one, in either direction (the library writes its value-returning overloads both ways). -/
+theorem div_gen_eq (fuel : Nat) (hf : invFuel ≤ fuel) :
+    (∀ a b : BitVec 64, div__eEE fuel a b = Model.div a b) ∧ (∀ a b : BitVec 64, div__rEE fuel a b = Model.div a b) := by
+  have hr := inv_r_gen_eq fuel hf
+  have he := inv_e_gen_eq fuel hf
+  first
+    | (have h1 : ∀ a b : BitVec 64, div__eEE fuel a b = Model.div a b := by div_via_inv div__eEE with hr, he
+       refine ⟨h1, ?_⟩
+       first | div_via_inv div__rEE with hr, he | div_wrap div__rEE with h1)
+    | (have h2 : ∀ a b : BitVec 64, div__rEE fuel a b = Model.div a b := by div_via_inv div__rEE with hr, he
+       refine ⟨?_, h2⟩
+       div_wrap div__eEE with h2)
+
+theorem div_r_gen_eq (fuel : Nat) (hf : invFuel ≤ fuel) (a b : BitVec 64) : div__rEE fuel a b = Model.div a b :=
+  (div_gen_eq fuel hf).2 a b
+
+theorem div_e_gen_eq (fuel : Nat) (hf : invFuel ≤ fuel) (a b : BitVec 64) : div__eEE fuel a b = Model.div a b :=
+  (div_gen_eq fuel hf).1 a b
 
 /-! ### exp: square and multiply -/
 
